@@ -1555,3 +1555,23 @@ package decimal128
 //@ loop 3: invariant forall m in 1..38: n == m ==> rs(V, digs.exp + 6176) == sum k in 0..37: ite(k < m, ite(k < i || k > j, (digs.dig[k] - 48) * p10(m - 1 - k), (digs.dig[k] - 48) * p10(k)), 0)
 //@ loop 3: decreases j - i + 1
 //@ props C06 C07 C20
+
+// ---------------------------------------------------------------------------
+// compose.go: Decompose (C14): form, sign, big-endian coefficient without leading zero byte, exponent.
+// ---------------------------------------------------------------------------
+
+//@ func Decimal.Decompose
+//@ returns (form, neg, sig, exp)
+//@ ensures neg == sign(d)
+//@ ensures isnan(d) ==> form == 2 && len(sig) == 0 && exp == 0
+//@ ensures isinf(d) ==> form == 1 && len(sig) == 0 && exp == 0
+//@ ensures !special(d) && coef(d) == 0 ==> form == 0 && len(sig) == 0 && exp == 0
+//@ ensures !special(d) && coef(d) != 0 ==> form == 0 && exp == bexp(d) - 6176 && 1 <= len(sig) && len(sig) <= 16 && sig[0] != 0
+//@ ensures !special(d) && coef(d) != 0 ==> forall m in 1..16: len(sig) == m ==> coef(d) == sum k in 0..15: ite(k < m, sig[k] * pow2(8 * (m - 1 - k)), 0)
+//@ loop 1: invariant 0 <= i && i <= 16 && len(sig) == 16 && (forall k in 0..15: k < i ==> sig[k] == 0) && (forall k in 0..15: 0 <= sig[k] && sig[k] <= 255)
+//@ loop 1: decreases 16 - i
+//@ apply before "i := 0": be64_digits(sig128[1])
+//@ apply before "i := 0"#1: be64_digits(sig128[0])
+//@ assert before "i := 0": forall k in 0..7: sig[k] == (sig128[1] / pow2(56 - 8 * k)) % 256 && sig[k + 8] == (sig128[0] / pow2(56 - 8 * k)) % 256
+//@ assert before "i := 0"#1: u128(sig128) == sum k in 0..15: sig[k] * pow2(8 * (15 - k))
+//@ props C14 C20
